@@ -125,8 +125,8 @@ def arbiter(g):
     b.name = g.name + '.arbiter'
     b.loops = False
     b.defines = dict(g.defines)
-    b.defines['VERIF_BOUND'] = 4
-    b.unwind = max(g.unwind or 0, 7)
+    b.defines['VERIF_BOUND'] = getattr(g, 'arb_bound', 0) or 4
+    b.unwind = max(g.unwind or 0, 7, getattr(g, 'arb_unwind', 0) or 0)
     b.timeout = min(g.timeout, 600)
     return b
 
@@ -154,11 +154,12 @@ def triage_loop_failure(pid, r):
         r.failed = r.failed + [{'name': g.name + '.native_oracle', 'desc': 'native input search on the real code violates the property oracle: %s' % str(nat.get('detail'))[:300],
                                 'file': '', 'line': '', 'function': '', 'status': 'FAILURE', 'cls': 'native'}]
         return 'violation'
-    if b.status == 'PROVED':
+    nat_clean = bool(nat) and not nat.get('confirmed') and 'satisfies the oracle' in str(nat.get('detail'))
+    if b.status == 'PROVED' or nat_clean:
         r.reason = ('proof not re-established: %s failed under the loop contracts, but the %s and the native input search on the real code%s found no violation'
                     % (', '.join(o['name'] for o in r.failed[:3]), note, '' if g.replay else ' (none available)'))
         return 'undecided'
-    return 'violation'      # arbiter itself undecided and nothing speaks for the code: report the failed obligation as the brief prescribes
+    return 'violation'      # arbiter itself undecided and no native oracle speaks for the code: report the failed obligation as the brief prescribes
 
 
 PROOF_STEP = '[proof step]'
